@@ -72,6 +72,9 @@ type Contract struct {
 	Trusted   string   // reason the body is not verified (e.g. reflection); contract is then an assumption
 	NoSafety  bool
 	Abstracted bool
+	TailSize  int      // joins in loop-free function tails of up to this many blocks are not merged (default 10)
+	InlineCalls []string // callees (short names) expanded in place although they have a contract
+	Unpack    []string // pointer parameters whose pointee is held in registers between calls
 	Pure      bool
 	ReplayTpl string
 	Bounds    []Clause // extra assumptions used only for bounded counterexample search
@@ -190,7 +193,7 @@ type ContractSet struct {
 
 var keywords = map[string]bool{"spec": true, "global": true, "func": true, "assume": true, "props": true, "requires": true,
 	"ensures": true, "modifies": true, "inline": true, "loop": true, "lemma": true, "panics": true, "trusted": true,
-	"nosafety": true, "abstracted": true, "pure": true, "uf": true, "specname": true, "split": true, "at": true, "after": true, "assumes": true, "small": true, "returns": true, "sets": true, "witness": true, "replay": true, "remainder": true, "sweep": true, "bound": true}
+	"nosafety": true, "abstracted": true, "unpack": true, "inlinecalls": true, "tail": true, "pure": true, "uf": true, "specname": true, "split": true, "at": true, "after": true, "assumes": true, "small": true, "returns": true, "sets": true, "witness": true, "replay": true, "remainder": true, "sweep": true, "bound": true}
 
 var labelRe = regexp.MustCompile(`^\[([A-Za-z0-9_.\-]+)\]\s*`)
 
@@ -500,6 +503,23 @@ func parseContractFile(path string, cs *ContractSet) error {
 			case "pure":
 				cur.Pure = true
 				cur.HasMod = true
+			case "tail":
+				n, err := strconv.Atoi(strings.TrimSpace(rest))
+				if err != nil || n < 0 || n > 200 {
+					return fmt.Errorf("%s:%d: tail <blocks>", path, l.line)
+				}
+				cur.TailSize = n
+			case "unpack":
+				cur.Unpack = append(cur.Unpack, strings.Fields(rest)...)
+			case "inlinecalls":
+				for _, n := range strings.Split(rest, ",") {
+					if n = strings.TrimSpace(n); n != "" {
+						if qn, _, _, err := parseFuncHeader(n, cs.Pkg); err == nil {
+							n = qn
+						}
+						cur.InlineCalls = append(cur.InlineCalls, n)
+					}
+				}
 			case "nosafety":
 				cur.NoSafety = true
 			case "abstracted":
